@@ -17,7 +17,10 @@ import time
 from pathlib import Path
 
 VERIF = Path(__file__).resolve().parent.parent
-LEAN = VERIF / "lean"
+# VERIF_LEAN / VERIF_OUT: a private copy of the Lean project and a private output directory (evidence, replays) for seeded-change
+# campaigns, so that they neither disturb the generated files nor the evidence of the tree under /repo
+LEAN = Path(os.environ.get("VERIF_LEAN", VERIF / "lean"))
+OUT = Path(os.environ.get("VERIF_OUT", VERIF))
 REPO = Path(os.environ.get("WALLGO_REPO", "/repo"))
 SRC = REPO / "src"
 PY = os.environ.get("WALLGO_PYTHON", "/venv/bin/python")
@@ -250,12 +253,12 @@ class Report:
                        "found_failing_input": found_input,
                        "rerun": f"VERIF_SEED={SEED} ./check {self.prop} --tier {self.tier}"})
         h = hashlib.sha256(json.dumps(replay, sort_keys=True, default=str).encode()).hexdigest()[:10]
-        path = VERIF / "replays" / f"{self.prop}-{h}.json"
+        path = OUT / "replays" / f"{self.prop}-{h}.json"
         path.parent.mkdir(exist_ok=True)
         path.write_text(json.dumps(replay, indent=1, default=str))
         self.violations.append({"what": what, "replay": str(path), "found": found_input})
         tail = "" if found_input else " no-failing-input-found"
-        print(f"VIOLATION property={self.prop} replay={path.relative_to(VERIF)}{tail}")
+        print(f"VIOLATION property={self.prop} replay={path.relative_to(OUT) if OUT == VERIF else path}{tail}")
         return True
 
     def finish(self, checker_cmd: str, rule: str) -> int:
@@ -280,6 +283,6 @@ class Report:
             "wall_s": round(time.time() - self.t0, 2),
             "violations": len(self.violations),
         }
-        (VERIF / "evidence").mkdir(exist_ok=True)
-        (VERIF / "evidence" / f"{self.prop}.json").write_text(json.dumps(ev, indent=1, default=str))
+        (OUT / "evidence").mkdir(exist_ok=True)
+        (OUT / "evidence" / f"{self.prop}.json").write_text(json.dumps(ev, indent=1, default=str))
         return 1 if self.violations else 0
